@@ -248,6 +248,10 @@ def interleave_monitor(case, il, sl):
 def suites(tier, seed):
     import machgen as mg
     return [
+        Suite("header-announces-length", "api", lambda: [Case("h%d" % i, ["init 4096"] + ["hdr-len %d %d" % (1 + i % 5, n) for n in ns], {"keep_prefix": 1}) for i, ns in enumerate(
+                  [[0, 1, 255, 256, 65535, 65536, 2 ** 31 - 1, 2 ** 31], [2 ** 32 - 2, 2 ** 32 - 1, 2 ** 32, 2 ** 32 + 1, 2 ** 32 + 4088], [2 ** 33, 2 ** 33 + 5, 2 ** 40, 2 ** 48 + 7, 2 ** 63 - 1, 2 ** 63, 2 ** 64 - 1]])],
+              nontrivial=lambda c, il: True, canon=apigen.canon, shrink=False,
+              rule="the content header a handle submits for a body of N bytes announces N - for N around 2^8, 2^16, 2^31, 2^32 (2^32-2 .. 2^32+4088), 2^33, 2^40, 2^48, 2^63, 2^64-1: the real IoLoopHandle::send_content_header called with the length only (hook content_header_submitted; no body of that size is allocated); exact diff against the Lean Api model's header"),
         Suite("publish-vs-server-frames", "machine", lambda: gen_interleave(tier, seed), monitor=interleave_monitor, nontrivial=lambda c, il: True, canon=mg.canon_nondet, candidate_ok=mg.candidate_ok, exhaustive=True,
               rule="a publish handed over entry by entry (method, header, two body frames) on a channel that also consumes; after the 1st / 2nd / 3rd entry (with or without a flush) the I/O thread handles a server frame - Basic.Cancel for that channel's consumer with and without nowait, Basic.Cancel on another channel, a heartbeat, a delivery, an ack: on the wire the publish's frames stay contiguous among that channel's frames"),
         Suite("water-mark-boundaries", "machine", lambda: __import__("machgen").water_mark_cases(Rng(seed + 18)), monitor=__import__("props.c01", fromlist=["x"]).monitor, nontrivial=lambda c, il: True, canon=__import__("machgen").canon_nondet, exhaustive=True,
